@@ -20,7 +20,7 @@ EXPLANATION = (
     'TT stores a ply-independent value (read at another ply the score is that of the same n); every mate score of the domain is '
     'classified by isWinScore / isLoseScore and fits the 16-bit score field.'
     ' (2) a score found by searching after a null move leaves negaScout only after it was shown not to be a win score; (3) the check-evasion generator is complete (a node in check without evasions is scored as mate).'
-    ' Added later; (6) every TranspositionTable insert in negaScout is guarded by the flag derived from the singular-move test (unrestricted search).')
+    ' Added later; (6) every TranspositionTable insert in negaScout is guarded by the flag derived from the singular-move test (unrestricted search). (7) forward-pruning skips in the move loop require a non-losing running maximum.')
 UNDECIDED = ('that a reported mate exists (game-tree semantics); soundness of pruning near mate scores (a rule "every pruning is guarded '
              'by normalBound" would also fire on removing a provably redundant conjunct, i.e. on a behaviour-preserving edit - declined).')
 ASSUMPTIONS = ['domain: mates in 0..60 moves at plies 0..40 (covers every distance an 8-bit tablebase state or a search line can encode)']
@@ -50,6 +50,7 @@ def run(fb, rep, tier):
     C08.c4_plyshift(fb, rep, clause='C04.5')
     C08.restore_ply_agreement(fb, rep, 'C04.5')
     c6_no_store_from_restricted_search(fb, rep, 'C04.6')
+    c7_pruning_needs_alternative(fb, rep, 'C04.7')
 
 
 def encoders(fb, rep, clause):
@@ -675,3 +676,122 @@ def c6_no_store_from_restricted_search(fb, rep, clause):
                    ok, R.site(f, e), 'guards: %s' % [('' if s_ else '!') + show(c, 40) for c, s_ in guards][-4:], f.sname)
     rep.floor(clause, 'negaScout instantiations with a singular-search flag', n_funcs, 2)
     rep.floor(clause, 'hash stores in negaScout', n, 8)
+
+
+# ----------------------------------------------------------------------------- .7
+
+def _local_guard_expansion(f):
+    """Returns expand(c, side) -> [(atom, side)]: a guard that is a bool local declared with an initialiser and never assigned
+    again is replaced by its initialiser (split into conjuncts), provided no variable of the initialiser can be assigned
+    between the declaration and the place the local is tested without the declaration being executed again."""
+    inits = _single_def_inits(f)
+    decl_at = {}
+    for b, i, e in f.events():
+        if e.get('k') == 'decl':
+            for v in e.get('vars', []):
+                decl_at[v['id']] = (b, i)
+    asg_at = {}
+    for b, i, e in f.events():
+        for n in walk(e):
+            if isinstance(n, dict) and n.get('k') in ('asg', 'incdec'):
+                tgt = _strip4(n.get('l') if n.get('k') == 'asg' else n.get('e'))
+                if isinstance(tgt, dict) and tgt.get('k') == 'var':
+                    asg_at.setdefault(tgt.get('id'), []).append((b, i))
+
+    def stable(vid):
+        if vid not in decl_at:
+            return False
+        bd, idd = decl_at[vid]
+        used = [n.get('id') for n in walk(inits[vid]) if isinstance(n, dict) and n.get('k') == 'var' and n.get('vk') in ('local', 'param')]
+        tests = [bid for bid, blk in f.blocks.items() if any(isinstance(n, dict) and n.get('k') == 'var' and n.get('id') == vid for n in walk((blk.get('term') or {}).get('cond')))]
+        fwd, st = set(), [s_ for s_ in f.blocks[bd]['succ'] if s_ in f.blocks]
+        while st:
+            x = st.pop()
+            if x in fwd or x == bd:
+                continue
+            fwd.add(x)
+            st.extend(s_ for s_ in f.blocks[x]['succ'] if s_ in f.blocks)
+        bwd, st = set(), list(tests)
+        while st:
+            x = st.pop()
+            if x in bwd:
+                continue
+            bwd.add(x)
+            if x != bd:
+                st.extend(p_ for p_ in f.preds.get(x, []) if p_ in f.blocks)
+        for u in used:
+            for (b, i) in asg_at.get(u, []):
+                after_decl = b in fwd or (b == bd and i > idd)
+                before_test = b in bwd and not (b == bd and i < idd)
+                if after_decl and before_test:
+                    return False
+        return True
+
+    def expand(c, side, depth=0):
+        c0 = _strip4(c)
+        if isinstance(c0, dict) and depth < 6:
+            if c0.get('k') == 'un' and c0.get('op') == '!':
+                return expand(c0.get('e'), not side, depth + 1)
+            if c0.get('k') == 'bin' and ((c0.get('op') == '&&' and side) or (c0.get('op') == '||' and not side)):
+                return expand(c0['l'], side, depth + 1) + expand(c0['r'], side, depth + 1)
+            if c0.get('k') == 'var' and c0.get('vk') == 'local' and c0.get('id') in inits and (c0.get('t') or '').replace('const ', '') == 'bool' and stable(c0['id']):
+                return expand(inits[c0['id']], side, depth + 1)
+        return [(c, side)]
+    return expand
+
+
+def c7_pruning_needs_alternative(fb, rep, clause):
+    """K4: negaScout returns the best score over the moves it searched.  A move may be skipped *unsearched* in the move loop
+    for three structural reasons (it is illegal, it is the move excluded by a singular test, it is deferred to the second
+    ABDADA pass); every other `continue` is forward pruning and is sound for mate scores only while the node already has a
+    non-losing alternative: its guards must include `!isLoseScore(best)` where `best` is the running maximum the node
+    returns.  Testing alpha instead is vacuous (normalBound already implies it): with every searched move mated, the late
+    quiet defences are pruned and the node reports "mated" - the parent announces a mate that does not exist."""
+    cands = [f for f in fb.funcs.values() if f.has_cfg and f.sname == 'Search::negaScout' and len(f.blocks) > 50]
+    if rep.need(clause, cands, 'Search::negaScout') is None:
+        return
+    n = 0
+    for f in sorted(cands, key=lambda x: x.name):
+        # the running maximum: `if (score > X) X = score`
+        best = set()
+        for b, i, e in f.events():
+            if e.get('k') == 'asg' and e.get('op') == '=' and isinstance(_strip4(e.get('l')), dict) and _strip4(e['l']).get('k') == 'var' and isinstance(_strip4(e.get('r')), dict) and _strip4(e['r']).get('k') == 'var':
+                x, sc = _strip4(e['l']), _strip4(e['r'])
+                for c, side in G.guard_trees(f, set(f.blocks), b):
+                    c = _strip4(c)
+                    if side and isinstance(c, dict) and c.get('k') == 'bin' and c.get('op') == '>' and (_strip4(c.get('l')) or {}).get('id') == sc.get('id') and (_strip4(c.get('r')) or {}).get('id') == x.get('id') and x.get('vk') == 'local':
+                        best.add(x['id'])
+        # or `X = std::max(X, score)`
+        for b, i, e in f.events():
+            if e.get('k') == 'asg' and e.get('op') == '=' and isinstance(_strip4(e.get('l')), dict) and _strip4(e['l']).get('k') == 'var':
+                r = _strip4(e.get('r'))
+                if isinstance(r, dict) and r.get('k') == 'call' and cname(r) == 'std::max' and _strip4(e['l']).get('vk') == 'local' and \
+                        any((_strip4(a) or {}).get('id') == _strip4(e['l']).get('id') for a in r.get('args', [])):
+                    best.add(_strip4(e['l'])['id'])
+        if rep.need(clause, best, 'the running maximum of ' + f.name) is None:
+            return
+        # the move loop: the natural loop whose header compares an index with the size of the move list
+        k = 0
+        expand = _local_guard_expansion(f)
+        for bid, blk in sorted(f.blocks.items()):
+            t = blk.get('term') or {}
+            if t.get('c') != 'ContinueStmt' or bid in f.dead:
+                continue
+            gs = [a for c, s_ in G.guard_trees(f, set(f.blocks), bid) for a in expand(c, s_)]
+            txt = [('' if s_ else '!') + show(c, 70) for c, s_ in gs]
+            if not any(isinstance(n_, dict) and n_.get('k') == 'mem' and n_.get('f') == 'MoveList::size' for c, _s in gs for n_ in walk(c)):
+                continue        # not the move loop of the node (its header compares the index with the move list's size)
+            structural = any((not s_) and isinstance(_strip4(c), dict) and _strip4(c).get('k') == 'call' and cname(_strip4(c)) == 'MoveGen::isLegal' for c, s_ in gs) or \
+                any('singularMove' in g and not g.startswith('!') for g in txt) or any('BUSY' in g and not g.startswith('!') for g in txt)
+            if structural:
+                continue
+            n += 1
+            k += 1
+            ok = False
+            for c, s_ in gs:
+                c = _strip4(c)
+                if (not s_) and isinstance(c, dict) and c.get('k') == 'call' and cname(c).split('::')[-1] == 'isLoseScore' and c.get('args') and (_strip4(c['args'][0]) or {}).get('id') in best:
+                    ok = True
+            rep.ob(clause, 'K4 guard', '%s: forward-pruning skip #%d in the move loop requires a non-losing alternative (!isLoseScore of the running maximum)' % (f.name.replace('Search::', ''), k),
+                   ok, '%s:%s' % (f.file, t.get('ln') or blk.get('ln') or f.line), 'guards %s' % txt[-5:], f.sname)
+    rep.floor(clause, 'forward-pruning skips in the move loop of negaScout', n, 2)
